@@ -226,7 +226,11 @@ const PARSER_SITES: &[SiteRow] = &[
     SiteRow { func: "lexer::Lexer::<T>::at_exponent", kind: "CharWindow::index", max: 2, discharge: "D.idx", why: "constant slots" },
     SiteRow { func: "lexer::Lexer::<T>::consume_character", kind: "CharWindow::index", max: 23, discharge: "D.idx", why: "constant slots" },
     SiteRow { func: "lexer::Lexer::<T>::consume_character", kind: "Option::unwrap", max: 1, discharge: "D.entry", why: "default arm: the character passed by consume_normal is still in window[0]" },
-    SiteRow { func: "lexer::Lexer::<T>::consume_character", kind: "TextRange::new", max: 40, discharge: "C05.O1", why: "start taken before end, positions only advance" },
+    SiteRow { func: "lexer::Lexer::<T>::consume_character", kind: "TextRange::new", max: 41, discharge: "C05.O1", why: "start taken before end, positions only advance (40 sites; 41 with full-lexer: the NonLogicalNewline emit around one next_char)" },
+    SiteRow { func: "lexer::Lexer::<T>::eat_indentation", kind: "TextRange::new", max: 1, discharge: "C05.F1", why: "[full-lexer] NonLogicalNewline of a blank line: start taken before the one next_char(), end after it" },
+    SiteRow { func: "lexer::Lexer::<T>::lex_comment", kind: "TextRange::new", max: 1, discharge: "C05.L1", why: "[full-lexer] start_pos taken before the comment text is consumed, end_pos after it" },
+    SiteRow { func: "token::Tok::expect_comment", kind: "panic", max: 1, discharge: "D.api", why: "[full-lexer] derive(Is) accessor that panics by contract when the token is not a comment; not called by the lexer or the parser" },
+    SiteRow { func: "parser::optional_range", kind: "TextRange::new", max: 1, discharge: "C03.R1", why: "[all-nodes-with-ranges] every grammar call passes the @L / @R captures around a run with a non-nullable symbol (C03.R1, C02.R1)" },
     SiteRow { func: "lexer::Lexer::<T>::consume_character", kind: "assert:Overflow", max: 6, discharge: "C04.L1", why: "nesting -= 1 dominated by the nesting == 0 return; += 1 bounded by the input length" },
     SiteRow { func: "lexer::Lexer::<T>::consume_normal", kind: "CharWindow::index", max: 1, discharge: "D.idx", why: "constant slot" },
     SiteRow { func: "lexer::Lexer::<T>::eat_indentation", kind: "CharWindow::index", max: 1, discharge: "D.idx", why: "constant slot" },
@@ -282,9 +286,15 @@ pub fn run(cx: &mut Ctx) {
     crate::g1::run(cx, "C03.G1");
     let facts = units::load_facts(cx, "C03.N1");
     if let Some(facts) = &facts {
-        parser_inventory(cx, facts);
-        recursion_inventory(cx, facts);
+        parser_inventory(cx, facts, "C03.N1");
+        recursion_inventory(cx, facts, "C03.C1");
         units::dimension_discipline(cx, "C03.U2", facts);
+    }
+    // thorough: the same MIR rules on the other feature configurations (code that exists only under a feature)
+    for (label, f) in units::extra_facts(cx, "C03.N1") {
+        parser_inventory(cx, &f, &format!("C03.N1@{}", label));
+        recursion_inventory(cx, &f, &format!("C03.C1@{}", label));
+        units::dimension_discipline(cx, &format!("C03.U2@{}", label), &f);
     }
     crate::rules::lexer_rules::byte_accounting(cx, "C03.N2");
     discharge_some(cx);
@@ -305,8 +315,7 @@ pub fn run(cx: &mut Ctx) {
     crate::rules::lexer_rules::indent_pairing(cx, "C03.I1");
 }
 
-fn parser_inventory(cx: &mut Ctx, facts: &Facts) {
-    let rule = "C03.N1";
+fn parser_inventory(cx: &mut Ctx, facts: &Facts, rule: &str) {
     cx.rule(rule, "panic-obligation inventory of rustpython_parser from resolved MIR (every Option/Result unwrap/expect, panic!/unreachable!/unimplemented!, slice/Vec/CharWindow indexing, Vec::remove/insert/drain, String::truncate/insert, split_at, TextRange::new, TextSize add/sub, *_unchecked call, and every Overflow/BoundsCheck/Division assert; LALRPOP internals excluded on the strength of G1): every site belongs to a (function, kind) row of the reviewed site table with its discharge rule, and no function has more sites of a kind than reviewed");
     cx.floor(rule, 60);
     let Some(cf) = facts.krate("rustpython_parser") else { return cx.anchor_missing(rule, "MIR facts of rustpython_parser") };
@@ -355,8 +364,7 @@ fn parser_inventory(cx: &mut Ctx, facts: &Facts) {
     }
 }
 
-fn recursion_inventory(cx: &mut Ctx, facts: &Facts) {
-    let rule = "C03.C1";
+fn recursion_inventory(cx: &mut Ctx, facts: &Facts, rule: &str) {
     cx.rule(rule, "recursion inventory: the strongly connected components of the resolved call graph of rustpython_parser are exactly the reviewed ones — set_context (structural recursion on an owned subtree) and the parser cycle through parse_fstring_expr (re-entered only with a strict substring: the field text without its braces; f-string nesting is cut at nested >= 2) — a new recursive cycle is reported");
     cx.floor(rule, 3);
     let Some(cf) = facts.krate("rustpython_parser") else { return cx.anchor_missing(rule, "MIR facts") };
